@@ -31,11 +31,14 @@ from . import mfcommon as mc
 
 logging.getLogger("fairlearn").setLevel(logging.ERROR)
 
-# Tolerances (review R3), measured on the unchanged tree (1600 generated cases, seeds 0 and 1, all streams):
-#   implementation vs Fraction oracle: max relative deviation 6.6e-16 (moment gamma)          -> TOL    = 5e-14
+# Tolerances (review R3), measured on the unchanged tree (4200 generated cases, seeds 0..3, all streams):
+#   implementation vs Fraction oracle: max relative deviation 6.7e-16 (moment gamma)          -> TOL    = 5e-14
 #   variant vs plain-list baseline:    0.0 for every container variant and relabelling (identical code path, bit-equal),
-#                                      1.8e-16 for joint row permutations (order of a float sum) -> VB_TOL = 1e-14
-#   weights seen by the base learner vs exact relabelling: max absolute deviation 8.9e-16      -> LEARNER_TOL = 5e-14
+#                                      3.3e-16 for joint row permutations (order of a float sum) -> VB_TOL = 1e-14
+#   weights seen by the base learner vs exact relabelling: max absolute deviation 2.4e-15      -> LEARNER_TOL = 5e-14
+#   EG mixture / ThresholdOptimizer predict-time rule: 0.0                                     -> 1e-14 (floor of 45 ulp)
+# (they were 1e-9 / 1e-7 / 1e-12 before: 5-8 orders of magnitude wider than anything observed)
+TOL = 5e-14
 #   EG mixture / ThresholdOptimizer predict-time rule: 0.0                                     -> 1e-14 (floor of 45 ulp)
 # (they were 1e-9 / 1e-7 / 1e-12 before: 6-8 orders of magnitude wider than anything observed)
 TOL = 5e-14
@@ -1799,8 +1802,8 @@ class CHECK(Check):
             "predict-time scores = a training score or that +-1/16; duplicated index labels come in pairs ((n-1-i)//2); "
             "relabellings map the observed values onto fresh values of the same type in random order (strings incl. a space "
             "and a non-ASCII letter; ints 20..59); the `ids` sample parameter is 2^i. Comparison: variant vs list run with "
-            "relative tolerance 1e-14 (measured: bit-equal for containers / relabelling, 1.8e-16 for permutations), vs the "
-            "Fraction oracle 5e-14 (measured 6.6e-16). A difference between two runs of fairlearn on the same data is a "
+            "relative tolerance 1e-14 (measured: bit-equal for containers / relabelling, 3.3e-16 for permutations), vs the "
+            "Fraction oracle 5e-14 (measured 6.7e-16). A difference between two runs of fairlearn on the same data is a "
             "PROPERTY failure (failing input = the case); the redcf stream and EG's counters / GridSearch's selection have no "
             "other oracle than the list run. "
             "distinct = distinct (entry point, base, variant); non-trivial = some pandas argument with non-default labels, or a "
